@@ -49,3 +49,9 @@ struct ApiModel {
 ApiModel buildApiModel(uint64_t seed, int variant, const ApiOpts* opts = nullptr);
 
 } // namespace vf
+
+namespace vf {
+// Applies `n` random public-API edits to a model (renames, shape/vertex/block deletion, added nodes and extra data,
+// texture changes, cloning, explicit sort/prune).  Returns a textual log of the operations.
+std::string applyRandomEdits(NifFile& nif, Rng& rng, int n);
+} // namespace vf
